@@ -220,10 +220,8 @@ theorem drain_untilClose (ri : ReqInfo) (body : Bytes) :
     simp
 
 theorem observe_data (o : Obs) (body : Bytes) :
-    (body.map Ev.data).foldl absorb o = { o with bodyRev := body.reverse ++ o.bodyRev } := by
-  induction body generalizing o with
-  | nil => simp
-  | cons b t ih => simp [absorb, ih]
+    (body.map Ev.data).foldl absorb o = { o with bodyRev := body.reverse ++ o.bodyRev } :=
+  foldl_absorb_data o body
 
 /-- the reader's position right after a final response head `raw` that announces a
 Content-Length of `n` (for a request that is not HEAD/CONNECT and a status that has a body) -/
